@@ -723,6 +723,14 @@ impl FileStateMachine {
             self.last_applied_term.store(replayed_up_to.1, Ordering::SeqCst);
         }
 
+        // The WAL is cleared below. What it held now lives in memory only and is reported as
+        // applied, so it must be in the checkpoint first: otherwise a second crash before the
+        // next checkpoint loses these entries for good (Raft does not re-send applied entries).
+        if replayed_count > 0 {
+            self.persist_data_async().await?;
+            self.persist_metadata_async().await?;
+        }
+
         // Unconditionally clear WAL after replay. load_data() already restored the last
         // checkpoint; WAL is only the post-checkpoint delta. Even if 0 entries were applied
         // (e.g. truncated tail only), the WAL is stale. Keeping it would cause infinite
